@@ -1092,6 +1092,7 @@ func (g *c15Gen) versionCases(keygenBin bool) {
 
 func (g *c15Gen) keygen() {
 	e := g.e
+	g.keygenLinksAndRaces()
 	checkKey := func(out []byte) string {
 		ids, err := age.ParseIdentities(bytes.NewReader(out))
 		if err != nil || len(ids) != 1 {
